@@ -220,7 +220,7 @@ func (v *Vocab) Value(r *core.Rand, depth int) any {
 	case k < 61:
 		return nil
 	case k < 64:
-		return json.Number(core.Pick(r, []string{"1", "1.0", "1e5", "-0", "12345678901234567890", "0.5"}))
+		return json.Number(core.Pick(r, []string{"1", "1.0", "1e5", "1E5", "6.02E23", "1E+5", "2.5E-3", "-0", "12345678901234567890", "0.5"}))
 	case k < 68:
 		return json.RawMessage(core.Pick(r, rawSnippets))
 	case k < 84 && depth > 0:
